@@ -232,6 +232,7 @@ func c02(x *mon.Ctx) {
 	x.Level = "exploration"
 	x.Rule = "pairs of freshly generated PKIs with identical subject names: (quote from A, pool from B / {} / nil / {A} / {A,B} / single non-root anchors), look-alike substitution of every chain element, role-confusion chains with the QE report re-signed by the substituted certificate's key (so only the role/path checks can reject), chain-shape variants; judged by must-reject / must-accept expectations and by an independent path predicate (raw ECDSA over TBS bytes, pool members are anchors). Root-of-trust configurations: every subset of 3 PKIs as files / inline / mixed, exact oracle 'quote from X accepted iff X listed' (empty configuration => only the Intel samples under the embedded root; empty or non-PEM bundle => error). Non-trivial = derived from a twin the library accepted; distinct = distinct (class, world pair, level, form)."
 	x.Assume = []string{"Go crypto/x509 path building is correct", "ECDSA unforgeability"}
+	enableShadow(x)
 	fl := faults02()
 	nw := x.Pick(6, 60)
 	x.Each(nw*len(fl), func(i int) {
@@ -250,6 +251,7 @@ func c02(x *mon.Ctx) {
 			form := mon.Forms[(wi+fi+l)%4]
 			c := w.Case(l, f.name, fmt.Sprintf("pair%d", wi))
 			c.Form, c.Expect, c.Twin = form, f.expect, "pool-own-root"
+			c.TwinRef = a.Case(l, "pool-own-root", "")
 			out, v := check(x, i, c)
 			if wi == 0 && l == 0 && (f.name == "pool-other-root" || f.name == "role-tcb-signer-as-leaf") {
 				x.Sample(sampleOf(c, out, v))
